@@ -400,32 +400,74 @@ def equation_envs(before, after):
     return out
 
 
+def eq_sides(t, env):
+    """('ok', L, R) | (kind,) for an equation-rooted tree; both sides evaluated exactly"""
+    a = q_eval(t[3], env)
+    if isinstance(a, str):
+        return (a,)
+    b = q_eval(t[4], env)
+    if isinstance(b, str):
+        return (b,)
+    return ("ok", a, b)
+
+
 def refines(before, after, envs=None):
     """The property oracle of C01/C02/C09: wherever `before` has a value `after` has the same
     value (for an equation: wherever it holds `after` holds), and wherever `before` is an
-    equation that does not hold `after` does not hold.
+    equation that does not hold `after` does not hold.  Equality is up to the floating-point
+    rounding of constants a rule folded (relative 1e-9); an equation counts as 'clearly not
+    holding' only when its sides differ by more than 1e-6 relative.
     Returns None if fine, otherwise a dict describing the failing assignment."""
     vs = tuple_vars(before) | tuple_vars(after)
     is_equation = before[0] == "B" and before[2] == "eq"
-    all_envs = [env_for(vs, proto) for proto in (envs or ENV_GRID)]
-    if is_equation:
+    big = tuple_size(before) > 40
+    protos = (envs or ENV_GRID)
+    if big:
+        protos = protos[:5]
+    all_envs = [env_for(vs, proto) for proto in protos]
+    if is_equation and not big:
         all_envs += equation_envs(before, after)
     for env in all_envs:
+        envs_s = {k: str(v) for k, v in env.items()}
         try:
+            if is_equation and after[0] == "B" and after[2] == "eq":
+                sb = eq_sides(before, env)
+                sa = eq_sides(after, env)
+                if sb[0] != "ok":
+                    if sb[0] == "unequal" and sa[0] not in ("unequal",):
+                        return {"env": envs_s, "before": "unequal", "after": str(sa)}
+                    continue
+                holds_b = close(sb[1], sb[2])
+                clearly_not_b = not close(sb[1], sb[2], rel=1e-6)
+                if sa[0] != "ok":
+                    if holds_b or (clearly_not_b and sa[0] != "unequal"):
+                        # a holding equation became undefined / a failing one stopped failing
+                        if holds_b and sb[1] == sb[2]:
+                            return {"env": envs_s, "before": "holds", "after": sa[0]}
+                        if clearly_not_b:
+                            return {"env": envs_s, "before": "does not hold", "after": sa[0]}
+                    continue
+                holds_a = close(sa[1], sa[2])
+                clearly_not_a = not close(sa[1], sa[2], rel=1e-6)
+                if sb[1] == sb[2] and clearly_not_a:
+                    return {"env": envs_s, "before": "holds", "after": f"{sa[1]} != {sa[2]}"}
+                if clearly_not_b and holds_a and sa[1] == sa[2]:
+                    return {"env": envs_s, "before": f"{sb[1]} != {sb[2]}", "after": "holds"}
+                continue
             a = q_eval(before, env)
             b = q_eval(after, env)
         except (FracPow, OverflowError):
             continue
         if isinstance(a, Fraction):
             if is_equation:
-                ok = isinstance(b, Fraction)  # an equation that holds must still hold
+                ok = isinstance(b, Fraction)
             else:
                 ok = isinstance(b, Fraction) and close(a, b)
             if not ok:
-                return {"env": {k: str(v) for k, v in env.items()}, "before": str(a), "after": str(b)}
+                return {"env": envs_s, "before": str(a), "after": str(b)}
         elif a == "unequal":
             if b != "unequal":
-                return {"env": {k: str(v) for k, v in env.items()}, "before": a, "after": str(b)}
+                return {"env": envs_s, "before": a, "after": str(b)}
     return None
 
 
